@@ -164,7 +164,7 @@ func propC10(w *World, r *Report) {
 	}
 	r.Check(nLayouts >= 1, "D1", "temporary names are derived from a time stamp", w.Pos(start.Pos()), fmt.Sprint(nLayouts))
 	// creation directories: values the output-dir field can hold, relative to Config.OutputDir
-	ctor := w.Func(pkgRel, "NewCPTVFileRecorder")
+	ctor := w.ctorOf(T)
 	dirRel := map[string]bool{}
 	if ctor != nil {
 		ce := newTermEnv(w)
@@ -197,7 +197,12 @@ func propC10(w *World, r *Report) {
 		}
 	}
 	// ---- D5: clean-up globs
-	runMain := w.Func(pkgRel, "runMain")
+	var runMain *ssa.Function
+	if hci := analyseHandleConn(w); hci.err == nil {
+		if cs := w.callersOf(hci.fn); len(cs) == 1 {
+			runMain = cs[0]
+		}
+	}
 	var cleanup *ssa.Function
 	var cleanupCall *ssa.Call
 	var hcCall *ssa.Call
@@ -209,7 +214,7 @@ func propC10(w *World, r *Report) {
 					continue
 				}
 				callee := c.Call.StaticCallee()
-				if callee.Name() == "handleConn" {
+				if hci := analyseHandleConn(w); hci.err == nil && callee == hci.fn {
 					hcCall = c
 				}
 				if w.IsRepoFunc(callee) && callsGlobAndRemove(callee) {
